@@ -378,7 +378,7 @@ def receive_rules_and_counters(b):
     def arg(i, name):
       return kw[name] if name in kw else a[i]
     return arg(0, "in_port") == in_port and arg(1, "buffer_id") == 7 and arg(2, "packet") == wire \
-      and arg(99, "reason") == of.OFPR_NO_MATCH and arg(99, "data_length") == sw_miss_send_len()
+      and arg(3, "reason") == of.OFPR_NO_MATCH and arg(4, "data_length") == sw_miss_send_len()
   def sw_miss_send_len():
     return sw.miss_send_len
   def port(i):
